@@ -51,8 +51,17 @@ class Phase(object):
                 "deadlock": self.deadlock, "blocked_seen": self.blocked_seen, "killed_at": self.killed_at}
 
 
-def _install_hook(point, watch):
+def _install_hook(point, watch, finals=()):
     state = {"busy": False}
+    finals = set(finals)
+
+    def mark(p):
+        """'!' marks an operation on a FINAL cache name (as opposed to a temporary one)"""
+        p = os.fspath(p)
+        if isinstance(p, bytes):
+            p = p.decode("utf8", "replace")
+        return "!" if os.path.basename(p) in finals else ""
+
     wflags = os.O_WRONLY | os.O_RDWR | os.O_CREAT | os.O_TRUNC | os.O_APPEND
 
     def watched(p):
@@ -85,10 +94,10 @@ def _install_hook(point, watch):
                 name = None     # the creation itself is reported by the "open" event that follows
             elif event == "os.remove":
                 if watched(args[0]):
-                    name = "remove" + ext(args[0])
+                    name = "remove" + ext(args[0]) + mark(args[0])
             elif event == "os.rename":
                 if watched(args[0]) or watched(args[1]):
-                    name = "rename" + ext(args[0]) + ">" + ext(args[1])
+                    name = "rename" + ext(args[0]) + ">" + ext(args[1]) + mark(args[1])
             elif event in ("os.link", "os.symlink"):
                 if watched(args[0]) or watched(args[1]):
                     name = event.split(".")[1]
@@ -101,7 +110,7 @@ def _install_hook(point, watch):
             elif event == "open":
                 path, mode, flags = args[0], args[1], args[2]
                 if isinstance(path, (str, bytes)) and watched(path) and isinstance(flags, int) and flags & wflags:
-                    name = "open-w" + ext(path)
+                    name = "open-w" + ext(path) + mark(path)
             elif event in ("fcntl.flock", "fcntl.lockf"):
                 name = "lock"
             elif event == "os.truncate":
@@ -118,7 +127,7 @@ def _install_hook(point, watch):
     sys.addaudithook(hook)
 
 
-def _child(i, sock_path, body, watch, extra_env):
+def _child(i, sock_path, body, watch, extra_env, finals=()):
     code = 3
     try:
         os.setsid()
@@ -135,7 +144,7 @@ def _child(i, sock_path, body, watch, extra_env):
         os.environ["VERIF_PROC_ID"] = str(i)
         os.environ.update(extra_env or {})
         point("start")
-        _install_hook(point, watch)
+        _install_hook(point, watch, finals)
         try:
             payload = body(i)
             conn.sendall(("%d !result %s\n" % (i, json.dumps(payload))).encode())
@@ -155,7 +164,7 @@ def _child(i, sock_path, body, watch, extra_env):
 
 
 def run_phase(body, nprocs, prefix, exec_dir, watch, kill=None, extra_env=None,
-              block_timeout=3.0, deadlock_timeout=6.0, id_base=0, wake_timeout=0.4):
+              block_timeout=3.0, deadlock_timeout=6.0, id_base=0, wake_timeout=0.4, finals=()):
     """
     Run `nprocs` controlled processes executing body(i).  `prefix` = choices for the first steps,
     afterwards choice 0.  kill = (victim id, step k): when the controller is about to grant step k
@@ -179,7 +188,7 @@ def run_phase(body, nprocs, prefix, exec_dir, watch, kill=None, extra_env=None,
         pid = os.fork()
         if pid == 0:
             srv.close()
-            _child(i, sock_path, body, watch, extra_env)
+            _child(i, sock_path, body, watch, dict(extra_env or {}, VERIF_FINAL_NAMES=",".join(finals)), finals)
         pids[i] = pid
     conns = {}      # fileno -> [sock, buffer]
     waiting = {}    # id -> (sock, event)
@@ -379,13 +388,28 @@ def run_phase(body, nprocs, prefix, exec_dir, watch, kill=None, extra_env=None,
     return ph
 
 
-def alternatives(points, choices, prefix_len, bound):
-    """new prefixes reachable from one finished execution under the preemption bound"""
+SHARED_PREFIXES = ("start", "mkdir", "rmdir", "rename", "remove.so", "dlopen", "link", "symlink", "lock", "truncate")
+
+
+def is_shared(event):
+    """events on objects other processes can see under their final names (for the reduced exploration)"""
+    return event.startswith(SHARED_PREFIXES) or event.endswith("!")
+
+
+def alternatives(points, choices, prefix_len, bound, shared_only=False):
+    """
+    new prefixes reachable from one finished execution under the preemption bound.
+    shared_only: partial-order reduction - a running thread is only preempted BEFORE an operation on a shared
+    object (operations on its private temporary files commute with everything the others do, PROVIDED temporary
+    names are invisible to them; the unreduced families do not rely on that assumption).
+    """
     out = []
     pre = 0
     for i, (pt, ch) in enumerate(zip(points, choices)):
         if i >= prefix_len:
             cost = pre + (1 if pt["running_enabled"] else 0)
+            if shared_only and pt["running_enabled"] and not is_shared(pt["enabled"][0][1]):
+                cost = bound + 1
             if cost <= bound:
                 for alt in range(1, len(pt["enabled"])):
                     if alt != ch:
